@@ -150,7 +150,7 @@ func genWalkC20(r rnd) []string {
 }
 
 func runC20(w *mon.W) {
-	total := w.Scale(2500, 300000)
+	total := w.Scale(2500, 2000000)
 	for i := 0; i < total; i++ {
 		if !w.Mine(i) {
 			continue
